@@ -131,6 +131,18 @@ std::string nr_class(int nr)
     return "33+";
 }
 bool is_pow2(int n) { return n > 0 && (n & (n - 1)) == 0; }
+std::string ntheta_class(int n)
+{
+    if (n <= 4)
+        return std::to_string(n); // 2: both angular neighbours coincide; 4: smallest coarsenable
+    if (n <= 16)
+        return "6-16";
+    if (n <= 64)
+        return "18-64";
+    if (n <= 256)
+        return "66-256";
+    return "258+";
+}
 
 std::string split_class(const std::vector<double>& R, const std::optional<double>& s)
 {
@@ -540,7 +552,7 @@ static void run_case(CaseCtx& c)
     c.announce(gcls);
 
     JObj sig;
-    sig.str("nr_class", nr_class(nr)).b("ntheta_pow2", is_pow2(nth)).str("split", scls).str("source", src.parametric ? "parametric" : "arrays");
+    sig.str("nr_class", nr_class(nr)).b("ntheta_pow2", is_pow2(nth)).str("ntheta_class", ntheta_class(nth)).str("split", scls).str("source", src.parametric ? "parametric" : "arrays");
 
     // ------------------------------------------------------------------- construct (first in a child: it may abort)
     ProbeResult pr = probe_in_child([&] { PolarGrid g = src.make(); (void)g.numberOfNodes(); }, c.out);
